@@ -1075,6 +1075,20 @@ def rule_r11(prog, res):
                         'ends in a fault')
 
 
+def rule_r12(prog, res):
+    from . import c09, c10
+    from ..report import Result
+    from ..callgraph import CallGraph
+    from ..excflow import ExcFlow
+    res.share('R12', 'an abandoned response is cleared before the fault is '
+              'serialised, so the document and string events of the fault '
+              'fire (C09-R14)', 'C09', c09.rule_r14, prog, Result)
+    ef = ExcFlow(prog, CallGraph(prog))
+    res.share('R12', 'leaf readers raise Faults only: anything else leaves '
+              'the transport without any exception event (C10-R3)', 'C10',
+              c10.rule_r3, prog, Result, ef, 'quick')
+
+
 def run(prog, res, tier):
     res.run_rule(rule_r1, prog, res, tier)
     res.run_rule(rule_r2, prog, res)
@@ -1087,6 +1101,7 @@ def run(prog, res, tier):
     res.run_rule(rule_r9, prog, res)
     res.run_rule(rule_r10, prog, res)
     res.run_rule(rule_r11, prog, res)
+    res.run_rule(rule_r12, prog, res)
 
 
 _A = 'spyne/application.py'
